@@ -293,11 +293,17 @@ func Run(r *core.Run) {
 		grammars = strings.Split(only, ",")
 		r.Assume("DEVELOPMENT RUN restricted to the sub-grammars " + only)
 	}
+	jvm := "-XX:TieredStopAtLevel=1 -XX:ParallelGCThreads=2 -XX:CICompilerCount=1"
+	if r.Thorough() {
+		jvm = "-XX:ParallelGCThreads=2"
+	}
 	core.Parallel(len(grammars), 8, func(i int) {
 		g := grammars[i]
 		var local []gramCase
 		tlcrun.MustHold(r, tlcrun.Options{
 			Module: "JsGrammar", Config: fmt.Sprintf("JsGrammar.%s.%s.cfg", g, tier), Workers: 1, TimeoutSec: r.Pick(1800, 3600), HeapGB: 4,
+			// many short JVMs side by side: C1 only and two GC threads each (measured: 76 s -> 22 s CPU for forhead.quick)
+			JavaOpts: jvm,
 			OnCase: func(raw []byte) {
 				var c gramCase
 				if err := json.Unmarshal(raw, &c); err != nil {
